@@ -86,6 +86,9 @@ fn check_curve(e: &Elem, verts: &[P], tol: f64, scale: f64) -> Result<f64, Strin
     let refine = |q: P, s: usize| -> f64 {
         let mut lo = (s as f64 - 1.0).max(0.0) / n as f64;
         let mut hi = (s as f64 + 2.0).min(n as f64) / n as f64;
+        // the window's own end points (in particular t = 1, the curve's end point) are candidates too:
+        // a curve that doubles back inside the window has two local minima
+        let ends = dist(e.at(lo), q).min(dist(e.at(hi), q));
         let g = 0.618_033_988_749_895;
         let mut c = hi - g * (hi - lo);
         let mut d = lo + g * (hi - lo);
@@ -106,7 +109,7 @@ fn check_curve(e: &Elem, verts: &[P], tol: f64, scale: f64) -> Result<f64, Strin
                 fd = dist(e.at(d), q);
             }
         }
-        fc.min(fd).min(dist(e.at(lo), q)).min(dist(e.at(hi), q))
+        fc.min(fd).min(dist(e.at(lo), q)).min(dist(e.at(hi), q)).min(ends)
     };
     let on_curve_at = |q: P, s: usize| -> bool { dist_point_seg(q, fine[s], fine[s + 1]) <= vtol + coarse && refine(q, s) <= vtol };
     let mut idx: Vec<usize> = Vec::with_capacity(verts.len() + 1);
